@@ -9,6 +9,8 @@ import NurbsVerif.Lemmas.AssembleLayout
 import NurbsVerif.Lemmas.LayoutBoundaryVol
 import NurbsVerif.Lemmas.FitParams
 import NurbsVerif.Lemmas.LayoutSweepGen
+import NurbsVerif.Lemmas.ConstructEval
+import NurbsVerif.Lemmas.ConstructRatMain
 
 /-!
 # C13  One control-net layout convention across all modules
@@ -528,5 +530,328 @@ example : KnotsOk c13EvalVol.dv c13EvalVol.kv c13EvalVol.sv ∧
       = some (volumePoint c13EvalVol.du c13EvalVol.dv c13EvalVol.dw c13EvalVol.ku c13EvalVol.kv c13EvalVol.kw
           c13EvalVol.su c13EvalVol.sv c13EvalVol.sw c13EvalVol.pts (1/3) 1 (1/4)) :=
   ⟨⟨fnOf_monotone_of_isSortedB _ (by decide +kernel), by decide, by decide +kernel⟩, by decide +kernel⟩
+
+/-! ## construct, then extract; what `construct_surface` / `construct_volume` return, evaluated -/
+
+/-- **`extract_curves` after `construct_surface`** (the converse of `extract_construct_surface`): for at least two
+    curves of one degree and one size, the `'v'` family of the surface stacked along `u`, and the `'u'` family of
+    the surface stacked along `v`, are the input curves net by net – with the degree and the knot vector of the
+    FIRST curve (the code copies only `args[0].knotvector`). -/
+theorem construct_extract_surface (args : List (Crv α κ)) (c0 : Crv α κ) (degO : ℕ) (kvO : κ)
+    (h0 : args.head? = some c0) (h2 : 2 ≤ args.length)
+    (hall : ∀ c ∈ args, c.deg = c0.deg ∧ c.pts.length = c0.pts.length) :
+    (∃ S, constructSurface Dir.u degO kvO args = some S ∧
+      extractCurvesV S = args.map fun c => { c0 with pts := c.pts }) ∧
+    (∃ S, constructSurface Dir.v degO kvO args = some S ∧
+      extractCurvesU S = args.map fun c => { c0 with pts := c.pts }) :=
+  ⟨⟨_, constructSurface_u_eq degO kvO h0 h2 hall, extractCurvesV_conSrfU degO kvO hall⟩,
+   ⟨_, constructSurface_v_eq degO kvO h0 h2 hall, extractCurvesU_conSrfV degO kvO hall⟩⟩
+
+/-- **`extract_surfaces` after `construct_volume`** (repaired code), all three stacking directions: for at least two
+    surfaces of equal degrees and sizes with nets of `size_u·size_v` points, the `'vw'` family of the volume stacked
+    along `u`, the `'uw'` family of the one stacked along `v` and the `'uv'` family of the one stacked along `w` are
+    the input surfaces net by net, with the degrees and knot vectors of the first surface. -/
+theorem construct_extract_volume (args : List (Srf α κ)) (s0 : Srf α κ) (degO : ℕ) (kvO : κ)
+    (h0 : args.head? = some s0) (h2 : 2 ≤ args.length) (hsu : 0 < s0.su)
+    (hall : ∀ s ∈ args, s.du = s0.du ∧ s.dv = s0.dv ∧ s.su = s0.su ∧ s.sv = s0.sv ∧ s.pts.length = s0.su * s0.sv) :
+    (∃ V, constructVolume Dir.u degO kvO args = some V ∧
+      extractSurfacesVW V = args.map fun s => { s0 with pts := s.pts }) ∧
+    (∃ V, constructVolume Dir.v degO kvO args = some V ∧
+      extractSurfacesUW V = args.map fun s => { s0 with pts := s.pts }) ∧
+    (∃ V, constructVolume Dir.w degO kvO args = some V ∧
+      extractSurfacesUV V = args.map fun s => { s0 with pts := s.pts }) :=
+  ⟨⟨_, constructVolume_u_eq degO kvO h0 h2 hall, extractSurfacesVW_conVolU degO kvO hsu hall⟩,
+   ⟨_, constructVolume_v_eq degO kvO h0 h2 hall, extractSurfacesUW_conVolV degO kvO hsu hall⟩,
+   ⟨_, constructVolume_w_eq degO kvO h0 h2 hall, extractSurfacesUV_conVolW degO kvO hsu hall⟩⟩
+
+/-- **`construct_surface` output, evaluated.**  For curves `C_0 … C_m` of one degree and one size (points of one
+    dimension, at least `degree+1 ≥ 2` of them) and `degO + 1 ≤ m + 1`: the surface stacked along `u` satisfies
+    `S(t, v) = ` the degree-`degO` curve with knot function `kvO` through the points `C_i(v)`, at `t`; the surface
+    stacked along `v` satisfies `S(u, t) = ` that curve through the points `C_i(u)` – every parameter, every
+    coordinate, all spans by the library's search, each `C_i` evaluated with the knot vector of `C_0`. -/
+theorem construct_surface_eval {K : Type} [Field K] [LinearOrder K] [IsStrictOrderedRing K]
+    (args : List (Crv (List K) (ℕ → K))) (c0 : Crv (List K) (ℕ → K)) (degO : ℕ) (kvO : ℕ → K) (d : ℕ)
+    (h0 : args.head? = some c0) (h2 : 2 ≤ args.length) (hdeg : degO + 1 ≤ args.length)
+    (hm : 2 ≤ c0.pts.length) (hd0 : c0.deg + 1 ≤ c0.pts.length)
+    (hall : ∀ c ∈ args, c.deg = c0.deg ∧ c.pts.length = c0.pts.length) (hd : ∀ c ∈ args, ∀ p ∈ c.pts, p.length = d) :
+    (∃ S, constructSurface Dir.u degO kvO args = some S ∧ ∀ (t v : K) (j : ℕ),
+      (surfacePoint S.du S.dv S.ku S.kv S.su S.sv S.pts t v).getD j 0
+        = (curvePoint degO kvO (args.map fun c => curvePoint c0.deg c0.kv c.pts v) t).getD j 0) ∧
+    (∃ S, constructSurface Dir.v degO kvO args = some S ∧ ∀ (u t : K) (j : ℕ),
+      (surfacePoint S.du S.dv S.ku S.kv S.su S.sv S.pts u t).getD j 0
+        = (curvePoint degO kvO (args.map fun c => curvePoint c0.deg c0.kv c.pts u) t).getD j 0) :=
+  ⟨constructSurface_u_eval degO kvO d h0 h2 hdeg hm hd0 hall hd, constructSurface_v_eval degO kvO d h0 h2 hdeg hm hd0 hall hd⟩
+
+/-- **`construct_volume` output, evaluated** (repaired code, all three stacking directions).  For surfaces
+    `S_0 … S_m` of equal degrees and sizes (nets of `size_u·size_v` points of one dimension, at least `degree+1 ≥ 2`
+    per direction) and `degO + 1 ≤ m + 1`: with `Q_i = S_i(a, b)` (each `S_i` evaluated with the knot vectors of `S_0`)
+    and `c(t)` the degree-`degO` curve with knot function `kvO` through `Q_0 … Q_m`,
+    `V_u(t, a, b) = V_v(a, t, b) = V_w(a, b, t) = c(t)` – every parameter, every coordinate. -/
+theorem construct_volume_eval {K : Type} [Field K] [LinearOrder K] [IsStrictOrderedRing K]
+    (args : List (Srf (List K) (ℕ → K))) (s0 : Srf (List K) (ℕ → K)) (degO : ℕ) (kvO : ℕ → K) (d : ℕ)
+    (h0 : args.head? = some s0) (h2 : 2 ≤ args.length) (hdeg : degO + 1 ≤ args.length)
+    (hsu : 2 ≤ s0.su) (hsv : 2 ≤ s0.sv) (hdu : s0.du + 1 ≤ s0.su) (hdv : s0.dv + 1 ≤ s0.sv)
+    (hall : ∀ s ∈ args, s.du = s0.du ∧ s.dv = s0.dv ∧ s.su = s0.su ∧ s.sv = s0.sv ∧ s.pts.length = s0.su * s0.sv)
+    (hd : ∀ s ∈ args, ∀ p ∈ s.pts, p.length = d) :
+    (∃ V, constructVolume Dir.u degO kvO args = some V ∧ ∀ (t a b : K) (j : ℕ),
+      (volumePoint V.du V.dv V.dw V.ku V.kv V.kw V.su V.sv V.sw V.pts t a b).getD j 0
+        = (curvePoint degO kvO
+            (args.map fun s => surfacePoint s0.du s0.dv s0.ku s0.kv s0.su s0.sv s.pts a b) t).getD j 0) ∧
+    (∃ V, constructVolume Dir.v degO kvO args = some V ∧ ∀ (a t b : K) (j : ℕ),
+      (volumePoint V.du V.dv V.dw V.ku V.kv V.kw V.su V.sv V.sw V.pts a t b).getD j 0
+        = (curvePoint degO kvO
+            (args.map fun s => surfacePoint s0.du s0.dv s0.ku s0.kv s0.su s0.sv s.pts a b) t).getD j 0) ∧
+    (∃ V, constructVolume Dir.w degO kvO args = some V ∧ ∀ (a b t : K) (j : ℕ),
+      (volumePoint V.du V.dv V.dw V.ku V.kv V.kw V.su V.sv V.sw V.pts a b t).getD j 0
+        = (curvePoint degO kvO
+            (args.map fun s => surfacePoint s0.du s0.dv s0.ku s0.kv s0.su s0.sv s.pts a b) t).getD j 0) :=
+  ⟨constructVolume_u_eval degO kvO d h0 h2 hdeg hsu hsv hdu hdv hall hd,
+   constructVolume_v_eval degO kvO d h0 h2 hdeg hsu hsv hdu hdv hall hd,
+   constructVolume_w_eval degO kvO d h0 h2 hdeg hsu hsv hdu hdv hall hd⟩
+
+/-- non-vacuity: the hypotheses of `construct_volume_eval` hold for the two rational bilinear surfaces `c13RatSrf`,
+    `c13RatSrf2` (homogeneous 4-coordinate points, weights `1, 2, 1/2, 3` and `2, 1, 1, 1/3`), stacked along `u` with degree 1 … -/
+example : ∃ V, constructVolume Dir.u 1 (fnOf ([0,0,1,1] : List ℚ)) [c13RatSrf, c13RatSrf2] = some V ∧ ∀ (t a b : ℚ) (j : ℕ),
+    (volumePoint V.du V.dv V.dw V.ku V.kv V.kw V.su V.sv V.sw V.pts t a b).getD j 0
+      = (curvePoint 1 (fnOf ([0,0,1,1] : List ℚ)) ([c13RatSrf, c13RatSrf2].map fun s =>
+          surfacePoint c13RatSrf.du c13RatSrf.dv c13RatSrf.ku c13RatSrf.kv c13RatSrf.su c13RatSrf.sv s.pts a b) t).getD j 0 :=
+  (construct_volume_eval [c13RatSrf, c13RatSrf2] c13RatSrf 1 (fnOf ([0,0,1,1] : List ℚ)) 4 rfl (by decide) (by decide)
+    (by decide) (by decide) (by decide) (by decide) (by decide) (by decide)).1
+
+/-- … and at `(t, a, b) = (1/4, 1/3, 1/2)` both sides are the same homogeneous point (computed in ℚ) -/
+example : (constructVolume Dir.u 1 (fnOf ([0,0,1,1] : List ℚ)) [c13RatSrf, c13RatSrf2]).map (fun V =>
+      volumePoint V.du V.dv V.dw V.ku V.kv V.kw V.su V.sv V.sw V.pts (1/4) (1/3) (1/2))
+    = some (curvePoint 1 (fnOf ([0,0,1,1] : List ℚ)) ([c13RatSrf, c13RatSrf2].map fun s =>
+        surfacePoint c13RatSrf.du c13RatSrf.dv c13RatSrf.ku c13RatSrf.kv c13RatSrf.su c13RatSrf.sv s.pts (1/3) (1/2)) (1/4)) := by
+  decide +kernel
+
+/-- two rational bilinear surfaces (`c13RatSrfL`, `c13RatSrfL2`: weights `1, 2, 1/2, 3` and `2, 1, 1, 1/3`,
+    different `u` knot vectors) stacked along `v`; the `'uw'` family of the result is the two nets with the first
+    surface's knot vectors -/
+example : (constructVolume Dir.v 1 [0,0,1,1] [c13RatSrfL, c13RatSrfL2]).map extractSurfacesUW
+    = some [c13RatSrfL, { c13RatSrfL with pts := c13RatSrfL2.pts }] := by decide +kernel
+
+/-! ## rational shapes: the split into control points and weights, and the recombination, written out -/
+
+/-- **Split, then recombine = identity** (C09 views).  For a stored homogeneous net with non-empty points and
+    non-zero weights (`HomOk`): the `ctrlpts` / `weights` views an input object hands out are
+    `separate_ctrlpts_weights` of the net; combining them gives the net back; and a fresh rational object filled by
+    `ns.ctrlpts = P; ns.weights = w` with these two lists stores exactly the net again (the intermediate unit
+    weights of the `ctrlpts` setter divide out). -/
+theorem rational_split_recombine_identity {K : Type} [Field K] [LinearOrder K] [IsStrictOrderedRing K]
+    (Pw : List (List K)) (h : HomOk Pw) (hne : Pw ≠ []) :
+    ratViews Pw = separate Pw ∧ combine (separate Pw).1 (separate Pw).2 = Pw ∧
+    ratAssign (ratViews Pw).1 (ratViews Pw).2 = some Pw :=
+  ⟨ratViews_eq Pw, combine_separate' Pw h, by rw [ratViews_eq]; exact ratAssign_separate Pw h hne⟩
+
+/-- **`construct_surface` on rational curves with the split-and-recombine inserted** (`constructSurfaceRat`: per-object
+    `ctrlpts` / `weights` views, separate concatenation, for `'v'` combine – flip – separate, result through the two
+    setters) returns what the layout model `constructSurface` (identity on homogeneous points) returns – also in the
+    error cases – when every weight is non-zero and no curve is empty. -/
+theorem construct_surface_rational_explicit {K : Type} [Field K] [LinearOrder K] [IsStrictOrderedRing K]
+    (dir : Dir) (degO : ℕ) (kvO : κ) (args : List (Crv (List K) κ)) (hh : ∀ c ∈ args, HomOk c.pts ∧ c.pts ≠ []) :
+    constructSurfaceRat dir degO kvO args = constructSurface dir degO kvO args :=
+  constructSurfaceRat_eq dir degO kvO args hh
+
+/-- **`construct_volume` (repaired) on rational surfaces with the split-and-recombine inserted** (`constructVolumeRat`:
+    the re-ordering loops run over the point list and the weight list separately) returns what `constructVolume`
+    returns, all three directions and the error cases – non-zero weights, nets of `size_u·size_v > 0` points. -/
+theorem construct_volume_rational_explicit {K : Type} [Field K] [LinearOrder K] [IsStrictOrderedRing K]
+    (dir : Dir) (degO : ℕ) (kvO : κ) (args : List (Srf (List K) κ))
+    (hh : ∀ s ∈ args, HomOk s.pts ∧ s.pts.length = s.su * s.sv ∧ 0 < s.su * s.sv) :
+    constructVolumeRat dir degO kvO args = constructVolume dir degO kvO args :=
+  constructVolumeRat_eq dir degO kvO args hh
+
+/-- **`sweep_vector` on rational shapes with the split-and-recombine inserted.**  The swept copy's net (read `ctrlpts`,
+    `point_translate`, write through the `ctrlpts` setter of the deep copy) is the net mapped by `pointTranslateW vec`
+    (no hypothesis: the same divisions on both sides); with non-zero weights `sweepCurveRat` / `sweepSurfaceRat` are
+    `sweepCurve` / `sweepSurface` with that point map. -/
+theorem sweep_vector_rational_explicit {K : Type} [Field K] [LinearOrder K] [IsStrictOrderedRing K]
+    (vec : List K) (kvGen : κ) :
+    (∀ Pw : List (List K), sweptNet vec Pw = Pw.map (pointTranslateW vec)) ∧
+    (∀ C : Crv (List K) κ, HomOk C.pts → C.pts ≠ [] →
+      sweepCurveRat vec kvGen C = sweepCurve (pointTranslateW vec) kvGen C) ∧
+    (∀ S : Srf (List K) κ, HomOk S.pts → S.pts.length = S.su * S.sv → 0 < S.su * S.sv →
+      sweepSurfaceRat vec kvGen S = sweepSurface (pointTranslateW vec) kvGen S) :=
+  ⟨sweptNet_eq vec, fun C h hne => sweepCurveRat_eq vec kvGen C h hne,
+   fun S h hl hpos => sweepSurfaceRat_eq vec kvGen S h hl hpos⟩
+
+/-- **Sections of a swept rational shape, net level, explicit model**: the two `u`-sections of the swept curve are the
+    curve and the curve with the net mapped by `pointTranslateW vec`; the two `w`-sections of the swept surface are the
+    surface and its mapped copy (3-D guard as in `sweep_surface_sections`: `4 ≤` number of homogeneous coordinates). -/
+theorem sweep_sections_rational {K : Type} [Field K] [LinearOrder K] [IsStrictOrderedRing K] (vec : List K) (kvGen : κ) :
+    (∀ C : Crv (List K) κ, HomOk C.pts → C.pts ≠ [] →
+      ∃ S, sweepCurveRat vec kvGen C = some S ∧ S.du = 1 ∧ S.dv = C.deg ∧ S.ku = kvGen ∧ S.kv = C.kv ∧
+        S.su = 2 ∧ S.sv = C.pts.length ∧
+        extractCurvesV S = [C, { C with pts := C.pts.map (pointTranslateW vec) }]) ∧
+    (∀ (S : Srf (List K) κ) (d : ℕ), S.WF → HomOk S.pts → (∀ p ∈ S.pts, p.length = d) → 4 ≤ d →
+      ∃ V, sweepSurfaceRat vec kvGen S = some V ∧ V.du = S.du ∧ V.dv = S.dv ∧ V.dw = 1 ∧ V.kw = kvGen ∧
+        V.su = S.su ∧ V.sv = S.sv ∧ V.sw = 2 ∧
+        extractSurfacesUV V = [S, { S with pts := S.pts.map (pointTranslateW vec) }]) :=
+  ⟨fun C h hne => sweepCurveRat_sections vec kvGen C h hne,
+   fun S _ hwf h _ _ => sweepSurfaceRat_sections vec kvGen S hwf h⟩
+
+/-- non-vacuity: the witness nets have non-zero weights, not all 1 … -/
+example : HomOk c13RatCrvL.pts ∧ HomOk c13RatSrfL.pts ∧ HomOk c13RatSrfL2.pts := by
+  refine ⟨?_, ?_, ?_⟩ <;> (unfold HomOk; decide +kernel)
+
+/-- … on them the explicit models compute (in ℚ) the same as the layout models: the swept rational curve
+    (weights `1, 2, 1/2`, vector `(1, 1/2)`) … -/
+example : sweepCurveRat [1, 1/2] [0,0,1,1] c13RatCrvL
+    = some { du := 1, dv := 2, ku := [0,0,1,1], kv := [0,0,0,1,1,1], su := 2, sv := 3,
+             pts := [[0,0,1],[2,4,2],[3/2,1/2,1/2],[1,1/2,1],[4,5,2],[2,3/4,1/2]] } := by decide +kernel
+
+/-- … and two rational surfaces stacked along `u` -/
+example : constructVolumeRat Dir.u 1 [0,0,1,1] [c13RatSrfL, c13RatSrfL2]
+    = constructVolume Dir.u 1 [0,0,1,1] [c13RatSrfL, c13RatSrfL2] := by decide +kernel
+
+/-! ## rational shapes: boundary sections and sweeps as PROJECTED points (what the rational evaluators return) -/
+
+/-- **Rational surface, boundary iso-curves in `u`.**  Homogeneous net of `d+1`-coordinate points with positive weights,
+    `u` knots clamped, `v` in the closed `v` domain: at the start / end of the `u` domain the projected surface point
+    (`evaluate_single` of `NURBS.Surface`) is the projected point at `v` of the first / last curve of
+    `extract_curves(surf)['v']` (`evaluate_single` of that `NURBS.Curve`), and the weight divided by is positive. -/
+theorem surface_boundary_u_is_extracted_curve_rational {K : Type} [Field K] [LinearOrder K] [IsStrictOrderedRing K]
+    (S : Srf (List K) (ℕ → K)) (d : ℕ) (h : S.WF) (hd : ∀ p ∈ S.pts, p.length = d + 1)
+    (hwt : ∀ i, i < S.pts.length → 0 < (ptsGet S.pts i).getD d 0)
+    (hUu : KnotsOk S.du S.ku S.su) (hcu : ClampedOk S.du S.ku S.su) (hUv : KnotsOk S.dv S.kv S.sv)
+    (e : Bool) (v : K) (hv1 : S.kv S.dv ≤ v) (hv2 : v ≤ S.kv S.sv) :
+    ∃ C, (extractCurvesV S)[if e then S.su - 1 else 0]? = some C ∧
+      0 < (curvePoint C.deg C.kv C.pts v).getD d 0 ∧
+      project (surfacePoint S.du S.dv S.ku S.kv S.su S.sv S.pts (if e then S.ku S.su else S.ku S.du) v)
+        = project (curvePoint C.deg C.kv C.pts v) :=
+  surfacePoint_boundary_u_rat S d h hd hUu hcu hUv hwt e v hv1 hv2
+
+/-- **Rational surface, boundary iso-curves in `v`**: the first / last curve of `extract_curves(surf)['u']`. -/
+theorem surface_boundary_v_is_extracted_curve_rational {K : Type} [Field K] [LinearOrder K] [IsStrictOrderedRing K]
+    (S : Srf (List K) (ℕ → K)) (d : ℕ) (h : S.WF) (hd : ∀ p ∈ S.pts, p.length = d + 1)
+    (hwt : ∀ i, i < S.pts.length → 0 < (ptsGet S.pts i).getD d 0)
+    (hUv : KnotsOk S.dv S.kv S.sv) (hcv : ClampedOk S.dv S.kv S.sv) (hUu : KnotsOk S.du S.ku S.su)
+    (e : Bool) (u : K) (hu1 : S.ku S.du ≤ u) (hu2 : u ≤ S.ku S.su) :
+    ∃ C, (extractCurvesU S)[if e then S.sv - 1 else 0]? = some C ∧
+      0 < (curvePoint C.deg C.kv C.pts u).getD d 0 ∧
+      project (surfacePoint S.du S.dv S.ku S.kv S.su S.sv S.pts u (if e then S.kv S.sv else S.kv S.dv))
+        = project (curvePoint C.deg C.kv C.pts u) :=
+  surfacePoint_boundary_v_rat S d h hd hUv hcv hUu hwt e u hu1 hu2
+
+/-- **Rational volume, boundary iso-surfaces, all three directions.**  Homogeneous net with positive weights, all three
+    knot functions non-decreasing with non-empty last span; for the direction that is clamped and the two free
+    parameters `a`, `b` in their closed domains: the projected volume point at the start / end of that direction is the
+    projected point at `(a, b)` of the first / last surface of the matching `extract_surfaces` family, weight positive. -/
+theorem volume_boundary_is_extracted_surface_rational {K : Type} [Field K] [LinearOrder K] [IsStrictOrderedRing K]
+    (V : Vol (List K) (ℕ → K)) (d : ℕ) (h : V.WF) (hd : ∀ p ∈ V.pts, p.length = d + 1)
+    (hwt : ∀ i, i < V.pts.length → 0 < (ptsGet V.pts i).getD d 0)
+    (hUu : KnotsOk V.du V.ku V.su) (hUv : KnotsOk V.dv V.kv V.sv) (hUw : KnotsOk V.dw V.kw V.sw) (e : Bool) (a b : K) :
+    (ClampedOk V.dw V.kw V.sw → V.ku V.du ≤ a → a ≤ V.ku V.su → V.kv V.dv ≤ b → b ≤ V.kv V.sv →
+      ∃ S, (extractSurfacesUV V)[if e then V.sw - 1 else 0]? = some S ∧
+        0 < (surfacePoint S.du S.dv S.ku S.kv S.su S.sv S.pts a b).getD d 0 ∧
+        project (volumePoint V.du V.dv V.dw V.ku V.kv V.kw V.su V.sv V.sw V.pts a b (if e then V.kw V.sw else V.kw V.dw))
+          = project (surfacePoint S.du S.dv S.ku S.kv S.su S.sv S.pts a b)) ∧
+    (ClampedOk V.dv V.kv V.sv → V.ku V.du ≤ a → a ≤ V.ku V.su → V.kw V.dw ≤ b → b ≤ V.kw V.sw →
+      ∃ S, (extractSurfacesUW V)[if e then V.sv - 1 else 0]? = some S ∧
+        0 < (surfacePoint S.du S.dv S.ku S.kv S.su S.sv S.pts a b).getD d 0 ∧
+        project (volumePoint V.du V.dv V.dw V.ku V.kv V.kw V.su V.sv V.sw V.pts a (if e then V.kv V.sv else V.kv V.dv) b)
+          = project (surfacePoint S.du S.dv S.ku S.kv S.su S.sv S.pts a b)) ∧
+    (ClampedOk V.du V.ku V.su → V.kv V.dv ≤ a → a ≤ V.kv V.sv → V.kw V.dw ≤ b → b ≤ V.kw V.sw →
+      ∃ S, (extractSurfacesVW V)[if e then V.su - 1 else 0]? = some S ∧
+        0 < (surfacePoint S.du S.dv S.ku S.kv S.su S.sv S.pts a b).getD d 0 ∧
+        project (volumePoint V.du V.dv V.dw V.ku V.kv V.kw V.su V.sv V.sw V.pts (if e then V.ku V.su else V.ku V.du) a b)
+          = project (surfacePoint S.du S.dv S.ku S.kv S.su S.sv S.pts a b)) :=
+  volumePoint_boundary_rat V d h hd hUu hUv hUw hwt e a b
+
+/-- **Sweep of a rational curve, evaluated, end to end.**  Rational curve with `d` Cartesian coordinates (homogeneous
+    points of `d+1`), positive weights, vector of `d` entries, clamped sweep knot function; `v` in the closed domain.
+    The surface the repaired `sweep_vector` returns – modelled WITH the control-point / weight split-and-recombine
+    (`sweepCurveRat`) – satisfies, as projected points: `S(u_min, v) = C(v)` and `S(u_max, v) = C(v) + vec` (translation
+    in Cartesian coordinates); the weight the curve evaluator divides by is positive. -/
+theorem sweep_curve_boundary_points_rational {K : Type} [Field K] [LinearOrder K] [IsStrictOrderedRing K]
+    (vec : List K) (kvGen : ℕ → K) (C : Crv (List K) (ℕ → K)) (d : ℕ)
+    (hn : 2 ≤ C.pts.length) (hU : KnotsOk C.deg C.kv C.pts.length) (hd : ∀ p ∈ C.pts, p.length = d + 1)
+    (hvec : vec.length = d) (hwt : ∀ i, i < C.pts.length → 0 < (ptsGet C.pts i).getD d 0)
+    (hk : KnotsOk 1 kvGen 2) (hc : ClampedOk 1 kvGen 2) (v : K) (hv1 : C.kv C.deg ≤ v) (hv2 : v ≤ C.kv C.pts.length) :
+    ∃ S, sweepCurveRat vec kvGen C = some S ∧
+      0 < (curvePoint C.deg C.kv C.pts v).getD d 0 ∧
+      project (surfacePoint S.du S.dv S.ku S.kv S.su S.sv S.pts (kvGen 1) v) = project (curvePoint C.deg C.kv C.pts v) ∧
+      project (surfacePoint S.du S.dv S.ku S.kv S.su S.sv S.pts (kvGen 2) v)
+        = pointTranslate vec (project (curvePoint C.deg C.kv C.pts v)) :=
+  sweepCurveRat_boundary vec kvGen C d hn hU hd hvec hwt hk hc v hv1 hv2
+
+/-- **Sweep of a rational surface, evaluated, end to end**: as projected points `V(u, v, w_min) = S(u, v)` and
+    `V(u, v, w_max) = S(u, v) + vec`, for the volume `sweepSurfaceRat` (split-and-recombine explicit) returns; `(u, v)` in the
+    closed domain.  Guard of the code / driver op: at least 3 Cartesian coordinates (`h3`). -/
+theorem sweep_surface_boundary_points_rational {K : Type} [Field K] [LinearOrder K] [IsStrictOrderedRing K]
+    (vec : List K) (kvGen : ℕ → K) (S : Srf (List K) (ℕ → K)) (d : ℕ) (h : S.WF) (h3 : 3 ≤ d)
+    (hUu : KnotsOk S.du S.ku S.su) (hUv : KnotsOk S.dv S.kv S.sv) (hd : ∀ p ∈ S.pts, p.length = d + 1)
+    (hvec : vec.length = d) (hwt : ∀ i, i < S.pts.length → 0 < (ptsGet S.pts i).getD d 0)
+    (hk : KnotsOk 1 kvGen 2) (hc : ClampedOk 1 kvGen 2) (u v : K)
+    (hu1 : S.ku S.du ≤ u) (hu2 : u ≤ S.ku S.su) (hv1 : S.kv S.dv ≤ v) (hv2 : v ≤ S.kv S.sv) :
+    ∃ V, sweepSurfaceRat vec kvGen S = some V ∧
+      0 < (surfacePoint S.du S.dv S.ku S.kv S.su S.sv S.pts u v).getD d 0 ∧
+      project (volumePoint V.du V.dv V.dw V.ku V.kv V.kw V.su V.sv V.sw V.pts u v (kvGen 1))
+        = project (surfacePoint S.du S.dv S.ku S.kv S.su S.sv S.pts u v) ∧
+      project (volumePoint V.du V.dv V.dw V.ku V.kv V.kw V.su V.sv V.sw V.pts u v (kvGen 2))
+        = pointTranslate vec (project (surfacePoint S.du S.dv S.ku S.kv S.su S.sv S.pts u v)) :=
+  sweepSurfaceRat_boundary vec kvGen S d h hUu hUv hd hvec hwt hk hc u v hu1 hu2 hv1 hv2
+
+/-- … with the knot vector the code generates (`knotGenerate 1 2 true tol`, `tol < 1`): `S(0, v) = C(v)`,
+    `S(1, v) = C(v) + vec` for the swept rational curve … -/
+theorem sweep_curve_boundary_points_rational_generated {K : Type} [Field K] [LinearOrder K] [IsStrictOrderedRing K]
+    (vec : List K) (tol : K) (htol : tol < 1) (C : Crv (List K) (ℕ → K)) (d : ℕ)
+    (hn : 2 ≤ C.pts.length) (hU : KnotsOk C.deg C.kv C.pts.length) (hd : ∀ p ∈ C.pts, p.length = d + 1)
+    (hvec : vec.length = d) (hwt : ∀ i, i < C.pts.length → 0 < (ptsGet C.pts i).getD d 0)
+    (v : K) (hv1 : C.kv C.deg ≤ v) (hv2 : v ≤ C.kv C.pts.length) :
+    ∃ S, sweepCurveRat vec (fnOf (knotGenerate 1 2 true tol : List K)) C = some S ∧
+      0 < (curvePoint C.deg C.kv C.pts v).getD d 0 ∧
+      project (surfacePoint S.du S.dv S.ku S.kv S.su S.sv S.pts 0 v) = project (curvePoint C.deg C.kv C.pts v) ∧
+      project (surfacePoint S.du S.dv S.ku S.kv S.su S.sv S.pts 1 v)
+        = pointTranslate vec (project (curvePoint C.deg C.kv C.pts v)) :=
+  sweepCurveRat_boundary_generated vec tol htol C d hn hU hd hvec hwt v hv1 hv2
+
+/-- … and `V(u, v, 0) = S(u, v)`, `V(u, v, 1) = S(u, v) + vec` for the swept rational surface (3-D guard as above). -/
+theorem sweep_surface_boundary_points_rational_generated {K : Type} [Field K] [LinearOrder K] [IsStrictOrderedRing K]
+    (vec : List K) (tol : K) (htol : tol < 1) (S : Srf (List K) (ℕ → K)) (d : ℕ) (h : S.WF) (h3 : 3 ≤ d)
+    (hUu : KnotsOk S.du S.ku S.su) (hUv : KnotsOk S.dv S.kv S.sv) (hd : ∀ p ∈ S.pts, p.length = d + 1)
+    (hvec : vec.length = d) (hwt : ∀ i, i < S.pts.length → 0 < (ptsGet S.pts i).getD d 0) (u v : K)
+    (hu1 : S.ku S.du ≤ u) (hu2 : u ≤ S.ku S.su) (hv1 : S.kv S.dv ≤ v) (hv2 : v ≤ S.kv S.sv) :
+    ∃ V, sweepSurfaceRat vec (fnOf (knotGenerate 1 2 true tol : List K)) S = some V ∧
+      0 < (surfacePoint S.du S.dv S.ku S.kv S.su S.sv S.pts u v).getD d 0 ∧
+      project (volumePoint V.du V.dv V.dw V.ku V.kv V.kw V.su V.sv V.sw V.pts u v 0)
+        = project (surfacePoint S.du S.dv S.ku S.kv S.su S.sv S.pts u v) ∧
+      project (volumePoint V.du V.dv V.dw V.ku V.kv V.kw V.su V.sv V.sw V.pts u v 1)
+        = pointTranslate vec (project (surfacePoint S.du S.dv S.ku S.kv S.su S.sv S.pts u v)) :=
+  sweepSurfaceRat_boundary_generated vec tol htol S d h hUu hUv hd hvec hwt u v hu1 hu2 hv1 hv2
+
+/-- non-vacuity: the rational witness curve `c13RatCrv` (Cartesian `(0,0), (1,2), (3,1)`, weights `1, 2, 1/2`) meets the
+    hypotheses … -/
+example : KnotsOk c13RatCrv.deg c13RatCrv.kv c13RatCrv.pts.length ∧ (∀ p ∈ c13RatCrv.pts, p.length = 2 + 1) ∧
+    (∀ i, i < c13RatCrv.pts.length → 0 < (ptsGet c13RatCrv.pts i).getD 2 0) :=
+  ⟨c13_kv3_knotsOk, by decide, by decide +kernel⟩
+
+/-- … so for every `v ∈ [0, 1]` the swept surface (vector `(1, 1/2)`, generated knots, `tol = 10e-8`) has
+    `S(1, v) = C(v) + (1, 1/2)` as projected points … -/
+example (v : ℚ) (hv1 : 0 ≤ v) (hv2 : v ≤ 1) :
+    ∃ S, sweepCurveRat [1, 1/2] (fnOf (knotGenerate 1 2 true (1/10000000 : ℚ))) c13RatCrv = some S ∧
+      project (surfacePoint S.du S.dv S.ku S.kv S.su S.sv S.pts 1 v)
+        = pointTranslate [1, 1/2] (project (curvePoint c13RatCrv.deg c13RatCrv.kv c13RatCrv.pts v)) := by
+  obtain ⟨S, h1, _, _, h2⟩ := sweep_curve_boundary_points_rational_generated [1, 1/2] (1/10000000 : ℚ) (by norm_num)
+    c13RatCrv 2 (by decide) c13_kv3_knotsOk (by decide) rfl (by decide +kernel) v
+    (by show (0 : ℚ) ≤ v; exact hv1) (by show v ≤ (1 : ℚ); exact hv2)
+  exact ⟨S, h1, h2⟩
+
+/-- … at `v = 1/2`: `C(1/2) = (1, 17/11)` with weight `11/8` (not 1), and the far section is `(2, 45/22)` -/
+example : curvePoint c13RatCrv.deg c13RatCrv.kv c13RatCrv.pts (1/2) = [11/8, 17/8, 11/8] ∧
+    project (curvePoint c13RatCrv.deg c13RatCrv.kv c13RatCrv.pts (1/2)) = [1, 17/11] ∧
+    pointTranslate [1, 1/2] [1, 17/11] = ([2, 45/22] : List ℚ) := by decide +kernel
+
+/-- … cross-check by evaluation in ℚ: the far section of the swept surface at `v = 1/2`, projected -/
+example : (sweepCurveRat [1, 1/2] (fnOf ([0,0,1,1] : List ℚ)) c13RatCrv).map (fun S =>
+    project (surfacePoint S.du S.dv S.ku S.kv S.su S.sv S.pts 1 (1/2))) = some [2, 45/22] := by decide +kernel
+
+/-- the rational witness surface `c13RatSrf` (3-D, weights `1, 2, 1/2, 3`) meets the hypotheses of the surface-sweep
+    and boundary theorems -/
+example : c13RatSrf.WF ∧ KnotsOk c13RatSrf.du c13RatSrf.ku c13RatSrf.su ∧ KnotsOk c13RatSrf.dv c13RatSrf.kv c13RatSrf.sv ∧
+    (∀ p ∈ c13RatSrf.pts, p.length = 3 + 1) ∧
+    (∀ i, i < c13RatSrf.pts.length → 0 < (ptsGet c13RatSrf.pts i).getD 3 0) :=
+  ⟨by unfold Srf.WF; decide, c13_kv2_knotsOk, c13_kv2_knotsOk, by decide, by decide +kernel⟩
 
 end C13
